@@ -89,13 +89,17 @@ class LoopSpec:
       variant(loc) -> SNum                 optional, must decrease and stay >= 0
     """
     def __init__(self, anchor: str, invariant=None, havoc=None, element=None, variant=None,
-                 on_exit=None, name='', at_backedge=None, rebinds=()):
+                 on_exit=None, name='', at_backedge=None, rebinds=(), dedup_key=None, at_entry=None):
         self.anchor = anchor
         self.invariant = invariant or (lambda loc: True)
         self.havoc = havoc or (lambda loc: {})
         self.element = element
         self.variant = variant
         self.on_exit = on_exit
+        # dedup_key(locals) -> hashable: the iteration from the havocked loop head depends only on this key (and on
+        # the havocked state), so it is explored once per key, not once per path that reaches the loop
+        self.dedup_key = dedup_key
+        self.at_entry = at_entry            # obligations about the state in which the loop is first reached
         self.rebinds = tuple(rebinds)       # extra locals (not assigned in the loop body) that havoc() may re-bind
         self.at_backedge = at_backedge      # per-iteration obligations, called at the back edge before the invariant
         self.name = name or anchor
@@ -601,7 +605,16 @@ class _LoopRuntime:
         spec = self.loops[k]
         eng = E()
         loc = dict(loc)
+        if spec.at_entry is not None:
+            spec.at_entry(loc)
         eng.ensure(f'{_hid(eng)}loop[{spec.name}].invariant@entry', spec.invariant(loc))
+        if spec.dedup_key is not None and eng.mode == 'sym' and eng.shared is not None:
+            key = ('loop', k, spec.dedup_key(loc))
+            here = tuple(eng.taken)
+            owner = eng.shared.setdefault(key, here)
+            if owner != here:
+                eng.dead = True
+                raise PathEnd(f'loop {k}: iteration already explored from another entry path with the same key')
         new = spec.havoc(loc) or {}
         loc.update(new)
         eng.assume(spec.invariant(loc), f'loop[{spec.name}] invariant')
